@@ -609,6 +609,22 @@ func ProbeRegisteredReverse(r *Run, scope int) {
 }
 
 // ProbeRegistered resolves every registered identity on the given scope.
+// ProbeForeignKeys asks for every keyed identity under a key of another Go type with the same
+// underlying string: nothing is registered there.
+func ProbeForeignKeys(r *Run, scope int) {
+	var iks []IdentKey
+	for ik := range r.Model.Services {
+		if ik.Key != "" {
+			iks = append(iks, ik)
+		}
+	}
+	sort.Slice(iks, func(i, j int) bool { return iks[i].Type+"\x00"+iks[i].Key < iks[j].Type+"\x00"+iks[j].Key })
+	for _, ik := range iks {
+		r.Do(Op{Kind: OpGetForeignKey, Scope: scope, Type: ik.Type, Key: ik.Key})
+		r.Do(Op{Kind: OpGet, Scope: scope, Type: ik.Type, Key: ik.Key})
+	}
+}
+
 func ProbeRegistered(r *Run, scope int) {
 	m := r.Model
 	var iks []IdentKey
